@@ -1,5 +1,6 @@
 import Driver.C03
 import Driver.C15
+import Driver.C16
 /-!
 `lvdriver`: reads one case per line (tab separated, first field = operation), replays it
 through the Lean model M and the specification S, and prints one answer per line:
@@ -20,6 +21,13 @@ def dispatch (line : String) : String :=
     | "parse" => C15.parseOp args
     | "rr" => C15.rrOp args
     | "sinfo" => C15.sinfoOp args
+    | "addr" => C16.addrOp args
+    | "addrnew" => C16.addrnewOp args
+    | "addrrt" => C16.addrrtOp args
+    | "envelope" => C16.envelopeOp args
+    | "mailcmd" => C16.mailcmdOp args
+    | "argv" => C16.argvOp args
+    | "envcheck" => C16.envcheckOp args
     | _ => "BADOP"
   | [] => "BADLINE"
 
